@@ -47,6 +47,8 @@ def deviations():
              dict(abstol=1e-7, reltol=-1.0, norm=2), dict(abstol=-1.0, reltol=1e-7, norm=1)]
     devs += [dict(nr_exp=5, ntheta_exp=6), dict(div2=1), dict(aniso=2), dict(aniso=3), dict(ntheta_exp=6), dict(nr_exp=5)]
     devs += [dict(threads=4, tfactor=0.5), dict(threads=3, tfactor=1.0)]
+    # verbosity is an option like any other: the iteration must not depend on what is printed
+    devs += [dict(verbose=1), dict(verbose=2)]
     return devs
 
 
@@ -168,8 +170,27 @@ def main(tier):
                 worst_its = max(worst_its, int(r["its"]))
             if int(r["its"]) < cfg["maxit"]:
                 early += 1
+    # what is printed must not change what is computed: cases that differ in the verbosity only give bit-identical outcomes
+    groups = {}
+    for i, (kind, cfg) in enumerate(cases):
+        r = res.get("c%05d" % i, {})
+        if r.get("status") == "ok":
+            k = json.dumps({a: b for a, b in cfg.items() if a != "verbose"}, sort_keys=True)
+            groups.setdefault(k, []).append((cfg.get("verbose", 0), r.get("its"), r.get("rho"), r.get("sol"), cfg, r))
+    verb_groups = 0
+    for g in groups.values():
+        if len({x[0] for x in g}) < 2:
+            continue
+        verb_groups += 1
+        ref = min(g, key=lambda x: x[0])
+        for x in g:
+            if x[1:4] != ref[1:4]:
+                rep.violation("verbosity-dependent:%s" % cfg_key(x[4]), "verbose=%s gives iterations/reduction factor/solution %s, verbose=%s gives %s"
+                              "  [config %s]" % (x[0], x[1:4], ref[0], ref[1:4], json.dumps(short(x[4]))),
+                              {"config": x[4], "kind": "verbosity", "other": ref[4]})
     cov = {
         "evaluations": len(cases),
+        "verbosity_groups_compared": verb_groups,
         "distinct_nontrivial": len(distinct),
         "stopped_early": early,
         "worst_reduction_factor": worst_rho,
@@ -194,6 +215,20 @@ def replay(path):
     rp = json.load(open(path))["replay"]
     binary = _build()
     cfg, kind = rp["config"], rp.get("kind", "core")
+    if kind == "verbosity":
+        outs = []
+        for _ in range(2):
+            res = gl.run_cases(binary, [("r0", gl.line_of("r0", cfg)), ("r1", gl.line_of("r1", rp["other"]))], chunk=1)
+            outs.append([tuple(res.get(t, {}).get(f) for f in ("its", "rho", "sol")) for t in ("r0", "r1")])
+        if outs[0] != outs[1]:
+            print("replay is not deterministic; refusing to report")
+            return 2
+        print(outs[0])
+        if outs[0][0] != outs[0][1]:
+            print("VIOLATION property=%s replay=%s" % (PID, path))
+            return 1
+        print("replay: property held")
+        return 0
     outs = []
     for _ in range(2):
         res = gl.run_cases(binary, [("r0", gl.line_of("r0", cfg))])
